@@ -196,6 +196,8 @@ impl ServerState {
                         // already ended (or for a request that was replaced while it was still
                         // queued); left in place it would cancel this, newer, compilation at its
                         // first check and the latest edit would never be compiled.
+                        #[cfg(fuellabs_sway_verif)]
+                        sway_utils::verif::step("W.pickupClear", "");
                         retrigger_compilation.store(false, Ordering::SeqCst);
 
                         let uri = &ctx.uri;
